@@ -52,9 +52,13 @@ def run(ctx):
     cases = os.path.join(ctx.work, "c05_cases.ndjson")
     # ---- leg M: the design satisfies the monitor for every configuration of the scope; cases are emitted on the way
     r = ctx.model_check(d, "MCKernelPDT", "MCKernelPDTQuick" if q else "MCKernelPDTFull", env={"CASES": cases},
-                        workers=4 if q else 16, timeout=240 if q else 1500, coverage=not q)
-    if r.coverage_zero:
-        raise vlib.Broken("an action of KernelPDT was never taken (vacuous scope): %s" % r.coverage_zero)
+                        workers=4 if q else 16, timeout=240 if q else 1700)
+    if not q:
+        # vacuity guard: every action of the model must have been taken (measured on the reduced scope: -coverage slows TLC)
+        r = ctx.tlc(d, "MCKernelPDT", "MCKernelPDTQuick", env={"CASES": os.path.join(ctx.work, "c05_cov_cases.ndjson")},
+                    workers=4, timeout=600, coverage=True, name="coverage")
+        if r.violated or not r.ok or r.coverage_zero:
+            raise vlib.Broken("coverage run of KernelPDT: violated=%s never-taken actions=%s" % (r.violated, r.coverage_zero))
     for b in vb.pick_bugs(BUGS, 2 if q else len(BUGS), ctx.seed):
         ctx.expect_model_violation(d, "MCKernelPDT", "MCKernelPDTBug_" + b, workers=2, timeout=240)
     # ---- leg G: replay the emitted configurations on the real vmm.Init
